@@ -25,6 +25,8 @@ func decConfigs(tier string) []DecConfig {
 	}
 	// Init on a DecoderBuffer that already owns a larger slice raises BufferSize lazily
 	out = append(out, DecConfig{W: 2, B: 3, PreCap: 8}, DecConfig{W: 3, B: 4, PreCap: 5})
+	// BufferSize above the 8 bytes Go's append allocates first: len(Data) == cap(Data) < BufferSize is reachable
+	out = append(out, DecConfig{W: 3, B: 12})
 	// one geometry beyond two kilobytes with one byte of slack (decisions that depend on len>>10, KiB thresholds ...)
 	out = append(out, DecConfig{W: 2100, B: 2101})
 	// every other small (WindowSize, BufferSize) pair that Init ACCEPTS on the tree under test (on the pinned
@@ -167,6 +169,6 @@ func registerDecCheck(id string, levels []int, expl string) {
 func init() {
 	registerDecCheck("C04", []int{0, 1}, "decoder expands valid streams exactly under every interleaving")
 	registerDecCheck("C05", []int{0, 1}, "malformed sequences rejected atomically, never a panic")
-	registerDecCheck("C06", []int{1}, "every Decoder call terminates (retry loops)")
+	registerDecCheck("C06", []int{0, 1}, "every DecoderBuffer and Decoder call terminates (copy loops, retry loops)")
 	registerDecCheck("C17", []int{0, 1}, "n, k, l and Off exact")
 }
